@@ -208,6 +208,8 @@ def check_structure(r):
 def run(R):
     R.build()
     R.prove('Props/C04.v')
+    from ..flagtie import regen_and_tie_flags
+    regen_and_tie_flags(R)       # the flag methods of the current source, translated, equal Model.always / Model.partial
     rnd = random.Random(R.seed)
     jobs, pairs = jobs_for(R.tier, rnd)
     R.extra['grammars'] = len(jobs)
